@@ -11,7 +11,9 @@ RULE = ("random histories (quick: 1200 of length <= 12; thorough: 12000 of lengt
         "is checked for well-formedness and against validate(). non-trivial = the step returned a tier with entries or raised")
 TRUSTED = ["oracle: well-formedness re-checked directly on entries/minTimestamp/maxTimestamp; exception class checked "
            "against praatio.utilities.errors (harness/props/C05.py:oracle)"]
-ASSUMPTIONS = ["arguments are type-correct (interval ops get interval tiers, durations > 0, finite non-negative times)",
+ASSUMPTIONS = ["arguments are type-correct (interval ops get interval tiers, durations > 0, finite times, a span requested from "
+               "a constructor has minTimestamp <= maxTimestamp); eraseRegion is exercised with regions inside, sticking "
+               "out of and outside the span (a returned tier with minTimestamp > maxTimestamp is ill-formed: A28)",
                "deleteEntry of an absent entry raises a built-in ValueError: recorded as a known finding, see known_findings.json"]
 
 case_json = lambda c: c
@@ -51,6 +53,10 @@ def oracle(c, r):
     if not isinstance(res, dict):
         return None
     probs = T.wf_problems(res)
+    if op in ("mkitier", "mkptier") and c.get("lo") is not None and c.get("hi") is not None and c["lo"] > c["hi"]:
+        # a REQUESTED span with minTimestamp > maxTimestamp is not a type-correct argument (hypothesis `hspan` of
+        # C05.construct_wf); an entry-less IntervalTier keeps it as given — reported, not judged here
+        probs = [p for p in probs if not p.startswith("span reversed")]
     if probs:
         return Failure(dict(sig, clause="well-formed"), f"{op} returned an ill-formed tier: {probs[0]}")
     # validate() agrees
@@ -192,6 +198,12 @@ def corpus():
     yield {"op": "idelete", "tier": it, "entry": [1.0, 2.0, "nope"], "grid": True}                                    # known finding
     yield {"op": "mkitier", "name": "N", "es": [[1.0, 3.0, "a"], [2.0, 4.0, "b"]], "lo": None, "hi": None, "grid": True}
     yield {"op": "mkitier", "name": "N", "es": [], "lo": None, "hi": None, "grid": True}
+    # A28 (fixed): eraseRegion with doShrink and a region reaching beyond the span returned a tier ending before its start
+    e10 = {"k": "I", "name": "e", "es": [], "lo": 0.0, "hi": 10.0}
+    for m in ("truncate", "categorical", "error"):
+        yield {"op": "ierase", "tier": e10, "a": 5.0, "b": 30.0, "mode": m, "shrink": True, "grid": True}
+    yield {"op": "perase", "tier": {"k": "P", "name": "p", "es": [[3.0, "p"]], "lo": 0.0, "hi": 10.0}, "a": -7.0, "b": -2.0,
+           "mode": "truncate", "shrink": True, "grid": True}
     yield {"op": "pdelete", "tier": pt, "entry": [1.0, "nope"], "grid": True}                                        # known finding
     # zero-length / reversed intervals must be rejected by insertEntry, not stored
     for mode in ("error", "replace", "merge"):
